@@ -61,3 +61,30 @@ Example C12_nonvacuous :
     = [49; 57; 55; 48; 45; 48; 49; 45; 48; 50; 32; 48; 49; 58; 48; 48; 58; 48; 48] /\
   wf_value (TTimestamp2 6) false (VTimestamp 0 0) = true.
 Proof. repeat split; vm_compute; reflexivity. Qed.
+
+
+(* ---------------------------------------------------------------------------------------------------------------
+   Tie by proof to the Go source.  gen/TransCellBytes.v is CellBytes of /repo/replication/binlog_event_rbr.go, translated
+   on every run by harness/cmd/gotrans (one definition per case of its switch and the dispatcher CellBytes_g); for the
+   type codes below the translated function returns, for EVERY row data, position, metadata and signedness, the value
+   text and consumed length that Model.Cell.cell_bytes returns - the model function the theorems above are about (same
+   outcome class on errors and panics).  Oracles shared by both sides: ffmt (strconv.AppendFloat 'f'), print_timestamp tz
+   (printTimestamp, pinned below / in C12), jsonp (printJSONData, C14).  flat forgets the difference between a nil and an
+   empty result slice (the model never answers NULL: that is decided by the NULL bitmap before CellBytes is called).
+   A change to one of these cases of CellBytes either keeps this provable or breaks the build before any test runs. *)
+From GB Require Import Base.GoSem Proofs.TransEquivCellBytesDefs Proofs.TransEquivCellBytesTies.
+From GBGen Require Import TransCellBytes.
+Theorem C12_tie_CellBytes : forall ffmt tz jsonp fuel d pos typ meta uns,
+  In typ [7; 10; 14; 11; 12; 17; 18; 19] -> (1000 <= fuel)%nat -> wf_bytes d -> 0 <= meta < 65536 -> Z.of_nat pos < 2 ^ 62 -> (pos <= length d)%nat ->
+  res_sim (CellBytes_g ffmt (print_timestamp tz) jsonp fuel d (Z.of_nat pos) typ meta uns)
+          (flat (cell_bytes ffmt tz jsonp d pos typ meta uns)).
+Proof. exact CellBytes_tie_temporal. Qed.
+Print Assumptions C12_tie_CellBytes.
+
+(* printTimestamp (time.Unix(v,0).Local() formatted) is the oracle ext_printTimestamp of the translated CellBytes, modelled
+   by Model.Cell.print_timestamp tz (tz = the zone offset oracle): a hand-written reading, tied to the code by the
+   differential harness under 8 time zones and pinned to the text the model was validated against. *)
+From GB Require Proofs.SourcePins Spec.SourceSnapshot.
+From GBGen Require Source.
+Example C12_pin_printTimestamp : Source.src_printTimestamp = SourceSnapshot.src_printTimestamp.
+Proof. exact SourcePins.pin_printTimestamp. Qed.
